@@ -87,6 +87,9 @@ IntNode *build(const std::string &name, const char *type, const std::vector<Item
 
 void resetAcls()
 {
+    // squid.conf default "configuration_includes_quoted_values off" (what default_all() sets before parsing)
+    ConfigParser::RecognizeQuotedValues = false;
+    ConfigParser::StrictMode = false;
     if (Config.namedAcls) Acl::FreeNamedAcls(&Config.namedAcls);
 }
 
@@ -310,7 +313,12 @@ vp::Verdict checkE(const ECase &c, vp::Ctx &ctx)
     static std::set<long> seen;
     resetAcls();
     if (c.i < 0 || c.i >= U || c.j < 0 || c.j > U) { ctx.excluded("malformed case"); return vp::pass(); }
-    if (seen.insert(c.i * 1000L + c.j).second && seen.size() == static_cast<size_t>(myChunks())) ctx.label("shard-enumeration-complete");
+    if (!seen.insert(c.i * 1000L + c.j).second) {
+        // the cyclic enumeration came round again: nothing new to learn in this process
+        ctx.excluded("chunk already enumerated by this process");
+        return vp::pass();
+    }
+    if (seen.size() == static_cast<size_t>(myChunks())) ctx.label("shard-enumeration-complete");
     ctx.nontrivial();
     std::vector<Item> items;
     items.push_back(u[c.i]);
